@@ -4,9 +4,9 @@
 # merges the profiles and prints the llvm-cov report for /repo/src plus the uncovered lines.
 set -e
 T=~/.rustup/toolchains/nightly-x86_64-unknown-linux-gnu/lib/rustlib/x86_64-unknown-linux-gnu/bin
-cd "$(dirname "$0")/../harness"
-RUSTFLAGS="-C instrument-coverage" cargo +nightly build --offline --profile checked --target-dir /tmp/covt -p ohmc --bins
-rm -rf /tmp/cov /tmp/covout; mkdir -p /tmp/cov /tmp/covout
+mkdir -p /tmp/cov; cd "$(dirname "$0")/../harness"
+LLVM_PROFILE_FILE=/tmp/cov/build-%p.profraw RUSTFLAGS="-C instrument-coverage" cargo +nightly build --offline --profile checked --target-dir /tmp/covt -p ohmc --bins
+rm -f /tmp/cov/*.profraw; mkdir -p /tmp/cov /tmp/covout
 BINS="c01 c02 c03 c04 c05 c06 c07 c08 c09 c10 c11 c12 c13 c14 c15 c16 c17 c18 c19 c20"
 for c in $BINS; do
   LLVM_PROFILE_FILE=/tmp/cov/$c-%p.profraw OHMC_CAP_S=${COV_CAP_S:-400} VERIF_DIR=/tmp/covout /tmp/covt/checked/$c quick >/tmp/covout/$c.log 2>&1 || true
